@@ -1,22 +1,27 @@
 import MsqModel.Py
 /-!
-# `CreateTableStatementGetter` (`analyzer/tool.py:34-76`) as a state machine, and its abstract specification
+# `CreateTableStatementGetter` (`analyzer/tool.py:35-92`) as a state machine, and its abstract specification
 
 The class keeps a memory dictionary (`_memory_cache`), the set of table names it believes to be on disk
 (`_disk_cache`, computed once, at construction, from the `*.sql` entries of the directory listing) and a directory
-with one file `<name>.sql` per table.  The model splits `get_statement` into the atomic steps the Python code
+with one file `<enc name>.sql` per table, where `enc` = `urllib.parse.quote(name, safe="")` (`_disk_file_name`, since /repo 69f92c3:
+letters, digits and `_.-~` are kept, every other character becomes `%XX` of its UTF-8 bytes).  The model splits `get_statement` into the atomic steps the Python code
 performs (provider call, `open(<name>.sql.tmp, "w")` = create/truncate, `write`, `close`, `os.replace` onto
 `<name>.sql`, `_disk_cache.add`, parse, memory store) so that a process death can be placed between any two of them.
-(State of /repo 4e42ffc: temporary file + rename, suffix-only name derivation, no newline translation; before these
-repairs the final file was truncated and written in place, `.sql` was deleted everywhere in the name and a carriage
-return came back as a line feed — findings F-C17-1/2/3/8, now regression theorems in `MsqProofs/Props/C17.lean`.)
+(State of /repo 69f92c3: temporary file + rename, suffix-only name derivation, no newline translation, percent-encoded
+file names; before these repairs the final file was truncated and written in place, `.sql` was deleted everywhere in
+the name, a carriage return came back as a line feed and the table name was pasted into the path as it was (`./a` =
+`a`, `../x` outside the directory, NUL = `ValueError`) — findings F-C17-1…8, now regression theorems in
+`MsqProofs/Props/C17.lean`.)
 
 The model is generic in the schema provider `prov : Name → Text` (the abstract method `get_sql`) and in the
 parser `parse : Text → Except Err σ` (`SQLParser.parse_create_table_statement`); the provider call log is part
 of the state (a ghost variable: it survives process deaths).
 
 File-system assumptions (named gap of DESIGN §8 C17): the cache directory holds regular files only, file names
-are case-sensitive byte strings without length limit, `os.listdir` returns every entry, a `close` that returns
+are case-sensitive byte strings without length limit (a real file system answers `OSError ENAMETOOLONG` when
+`<enc name>.sql.tmp` has more than 255 bytes: 247 safe characters, 27 CJK characters), table names are sequences of
+Unicode scalar values (`Char`; Python's `quote` raises `UnicodeEncodeError` for a lone surrogate), `os.listdir` returns every entry, a `close` that returns
 has put the whole text on disk, `os.replace` is atomic.
 -/
 namespace Cache
@@ -30,12 +35,88 @@ def ext : List Char := ['.', 's', 'q', 'l']
 /-- `".tmp"` -/
 def tmpExt : List Char := ['.', 't', 'm', 'p']
 
-/-- `file_name[:-len(".sql")] … if file_name.endswith(".sql")` (`tool.py:43-44`): the table name of a directory entry,
+/-- `file_name[:-len(".sql")] … if file_name.endswith(".sql")` (`tool.py:46-49`): the stem of a directory entry,
 `none` for an entry that is not a `*.sql` file -/
 def stripSql (fileName : Name) : Option Name :=
   match fileName.reverse with
   | 'l' :: 'q' :: 's' :: '.' :: r => some r.reverse
   | _ => none
+
+/-! ## the file name of a table (`_disk_file_name`, `tool.py:84-88`): `urllib.parse.quote(name, safe="") + ".sql"` -/
+
+/-- the characters `quote` never escapes (`urllib.parse._ALWAYS_SAFE`): ASCII letters, digits, `_ . - ~` -/
+def safeChar (c : Char) : Bool :=
+  let v := c.toNat
+  (48 ≤ v && v ≤ 57) || (65 ≤ v && v ≤ 90) || (97 ≤ v && v ≤ 122) || v == 95 || v == 46 || v == 45 || v == 126
+
+/-- `str.encode("utf-8")` of one character, as numbers < 256 -/
+def utf8 (c : Char) : List Nat :=
+  let v := c.toNat
+  if v < 0x80 then [v]
+  else if v < 0x800 then [0xC0 + v / 64, 0x80 + v % 64]
+  else if v < 0x10000 then [0xE0 + v / 4096, 0x80 + v / 64 % 64, 0x80 + v % 64]
+  else [0xF0 + v / 262144, 0x80 + v / 4096 % 64, 0x80 + v / 64 % 64, 0x80 + v % 64]
+
+/-- upper-case hexadecimal digit -/
+def hexU (d : Nat) : Char := if d < 10 then Char.ofNat (48 + d) else Char.ofNat (55 + d)
+
+/-- `'%{:02X}'.format(byte)` -/
+def pct (b : Nat) : List Char := ['%', hexU (b / 16), hexU (b % 16)]
+
+/-- `quote` on one character -/
+def encC (c : Char) : List Char := if safeChar c then [c] else (utf8 c).flatMap pct
+
+/-- `urllib.parse.quote(name, safe="")`: total, character by character -/
+def enc (n : Name) : Name := n.flatMap encC
+
+/-- value of an upper-case hexadecimal digit -/
+def hexVal (c : Char) : Option Nat :=
+  let v := c.toNat
+  if 48 ≤ v && v ≤ 57 then some (v - 48) else if 65 ≤ v && v ≤ 70 then some (v - 55) else none
+
+/-- one `%XX` token -/
+def pctByte : List Char → Option (Nat × List Char)
+  | '%' :: h :: l :: r =>
+    match hexVal h, hexVal l with
+    | some a, some b => some (16 * a + b, r)
+    | _, _ => none
+  | _ => none
+
+/-- a decoder for the image of `enc` (`%XX` sequences read as UTF-8, other characters kept); what it answers outside
+that image does not matter: `decStem` re-encodes and compares -/
+def decAux : Nat → List Char → Option (List Char)
+  | _, [] => some []
+  | 0, _ :: _ => none
+  | f + 1, c :: r =>
+    if c = '%' then
+      (pctByte (c :: r)).bind fun p0 =>
+        if p0.1 < 0x80 then (decAux f p0.2).map (Char.ofNat p0.1 :: ·)
+        else if p0.1 < 0xE0 then
+          (pctByte p0.2).bind fun p1 =>
+            (decAux f p1.2).map (Char.ofNat ((p0.1 - 0xC0) * 64 + (p1.1 - 0x80)) :: ·)
+        else if p0.1 < 0xF0 then
+          (pctByte p0.2).bind fun p1 => (pctByte p1.2).bind fun p2 =>
+            (decAux f p2.2).map (Char.ofNat (((p0.1 - 0xE0) * 64 + (p1.1 - 0x80)) * 64 + (p2.1 - 0x80)) :: ·)
+        else
+          (pctByte p0.2).bind fun p1 => (pctByte p1.2).bind fun p2 => (pctByte p2.2).bind fun p3 =>
+            (decAux f p3.2).map (Char.ofNat ((((p0.1 - 0xF0) * 64 + (p1.1 - 0x80)) * 64 + (p2.1 - 0x80)) * 64 + (p3.1 - 0x80)) :: ·)
+    else (decAux f r).map (c :: ·)
+
+def dec (s : List Char) : Option Name := decAux s.length s
+
+/-- `__init__` (`tool.py:49-52`): the table name a file stem stands for — `unquote(stem)` if the stem is the CANONICAL
+encoding of that name (`stem.isascii() and quote(unquote(stem), safe="") == stem`), `none` otherwise (a raw blank or
+non-ASCII character, a lower-case or incomplete `%xx`, bytes that are not UTF-8: such files are ignored).  Python's
+`unquote` is lenient (invalid sequences become U+FFFD, a stray `%` stays) where `dec` is not, but both are left inverses
+of the encoding, so both tests say "the stem is `enc n`" and give that `n` (`Cache.decStem_iff`; compared on
+non-canonical stems by the correspondence). -/
+def decStem (stem : List Char) : Option Name :=
+  match dec stem with
+  | some n => if enc n = stem then some n else none
+  | none => none
+
+/-- the table name of a directory entry: `none` for an entry that is not `<canonical encoding>.sql` -/
+def entryName (fileName : Name) : Option Name := (stripSql fileName).bind decStem
 
 /-! ## the directory -/
 
@@ -92,10 +173,10 @@ def resolveP (files : Files) (p : Name) : Path :=
          | _ => .outside)
       else if (fget files c).isSome then .viaFile else .viaMissing
 
-/-- the cache file of a table: `<name>.sql` -/
-def resolve (files : Files) (n : Name) : Path := resolveP files (n ++ ext)
-/-- the temporary file it is written to: `<name>.sql.tmp` -/
-def resolveTmp (files : Files) (n : Name) : Path := resolveP files (n ++ ext ++ tmpExt)
+/-- the cache file of a table: `os.path.join(disk_path, <enc name>.sql)` -/
+def resolve (files : Files) (n : Name) : Path := resolveP files (enc n ++ ext)
+/-- the temporary file it is written to: `<enc name>.sql.tmp` -/
+def resolveTmp (files : Files) (n : Name) : Path := resolveP files (enc n ++ ext ++ tmpExt)
 
 /-! ## outcomes -/
 
@@ -134,10 +215,10 @@ def mget {σ : Type} : List (Name × σ) → Name → Option σ
   | [], _ => none
   | (m, st) :: r, n => if m = n then some st else mget r n
 
-/-- `__init__` (`tool.py:37-46`) in a new process over the same directory: the memory is empty, the names are
-derived from the `*.sql` entries of the directory listing -/
+/-- `__init__` (`tool.py:38-52`) in a new process over the same directory: the memory is empty, the names are
+decoded from the `*.sql` entries of the directory listing whose stem is a canonical encoding -/
 def init {σ : Type} (useDisk : Bool) (files parent : Files) (calls : List Name) : St σ :=
-  { useDisk, mem := [], listed := if useDisk then files.filterMap (fun p => stripSql p.1) else [], files, parent, calls }
+  { useDisk, mem := [], listed := if useDisk then files.filterMap (fun p => entryName p.1) else [], files, parent, calls }
 
 /-- a process death: where (after how many atomic steps of the miss path) and, if it happens between `write`
 and the end of `close`, how many characters had reached the temporary file -/
@@ -149,7 +230,7 @@ structure Crash where
 section
 variable {σ : Type} (prov : Name → Text) (parse : Text → Except Err σ)
 
-/-- `load_from_disk` (`tool.py:64-67`; no newline translation) -/
+/-- `load_from_disk` (`tool.py:70-74`; no newline translation) -/
 def load (s : St σ) (n : Name) : Except Fail Text :=
   match resolve s.files n with
   | .inDir f => match fget s.files f with | some t => .ok t | none => .error .fileNotFound
@@ -162,7 +243,7 @@ def load (s : St σ) (n : Name) : Except Fail Text :=
 /-- where an open file lives -/
 inductive Handle | inDir (f : Name) | parent (f : Name)
 
-/-- `open(path + ".tmp", "w")` (`tool.py:72`): the temporary file exists and is empty from here on; the handle of the
+/-- `open(path + ".tmp", "w")` (`tool.py:79`): the temporary file exists and is empty from here on; the handle of the
 temporary file and the place of the final file -/
 def openTmp (s : St σ) (n : Name) : Except Fail (Handle × Handle × St σ) :=
   match resolveTmp s.files n, resolve s.files n with
@@ -179,14 +260,14 @@ def putFile (s : St σ) (h : Handle) (t : Text) : St σ :=
   | .inDir f => { s with files := fset s.files f t }
   | .parent f => { s with parent := fset s.parent f t }
 
-/-- `os.replace(path + ".tmp", path)` (`tool.py:74`): atomically, the final file holds the text and the temporary name is gone -/
+/-- `os.replace(path + ".tmp", path)` (`tool.py:81`): atomically, the final file holds the text and the temporary name is gone -/
 def replaceFile (s : St σ) (tmp fin : Handle) (t : Text) : St σ :=
   match tmp, fin with
   | .inDir a, .inDir f => { s with files := fset (fdel s.files a) f t }
   | .parent a, .parent f => { s with parent := fset (fdel s.parent a) f t }
   | _, _ => s
 
-/-- `tool.py:60-61`: parse, store, return -/
+/-- `tool.py:67-68`: parse, store, return -/
 def finish (s : St σ) (n : Name) (sql : Text) : Res σ × St σ :=
   match parse sql with
   | .error e => (.fail (.parse e), s)
@@ -195,7 +276,7 @@ def finish (s : St σ) (n : Name) (sql : Text) : Res σ × St σ :=
 def dies (crash : Option Crash) (k : Nat) : Bool :=
   match crash with | some c => c.steps == k | none => false
 
-/-- `get_statement` (`tool.py:48-62`) with `save_to_disk` (`tool.py:69-75`) inlined, and an optional process death after
+/-- `get_statement` (`tool.py:54-68`) with `save_to_disk` (`tool.py:76-82`) inlined, and an optional process death after
 `crash.steps` atomic steps of the miss path: 1 = provider called, 2 = temporary file created/truncated, 3 = `write`
 (`crash.flushed` characters in the temporary file), 4 = `close` (whole text in the temporary file), 5 = `os.replace`
 (final file in place).  A hit performs no durable step and cannot be interrupted observably. -/
@@ -275,11 +356,6 @@ def Abs.get {σ : Type} (prov : Name → Text) (parse : Text → Except Err σ) 
 /-- the abstraction function -/
 def St.abs {σ : Type} (s : St σ) : Abs :=
   { warm := s.mem.map (·.1) ++ (if s.useDisk then s.listed else []), calls := s.calls }
-
-/-! ## names for which the file-system mapping is faithful -/
-
-/-- no `/` and no NUL: `resolve` leads to the file `name.sql` in the cache directory -/
-def Good (n : Name) : Bool := !n.contains '/' && !n.contains '\x00'
 
 /-! ## the lookup keys used by the lineage analyzers -/
 
